@@ -277,6 +277,10 @@ def check(prog, rep):
                    if not later_fill and not empty else
                    f"published as {src(val)[:40]} and filled afterwards (line {later_fill[0].lineno if later_fill else n.lineno}): an exception in between leaves a partial cache that the next solve trusts",
                    loc=f"{fi.module.rel}:{n.lineno}", detail="publish-complete")
+    from .common import cache_inplace_mutations
+    muts = cache_inplace_mutations(prog, pm)
+    for f, n, what in muts:
+        rep.ob("R20.4", f.qual.split(":")[1], False, what + ": if the backend raises between this modification and its undo, the problem's cache is left altered and the next solve differs from one that never failed", loc=f"{f.module.rel}:{n.lineno}", detail=f"in-place:{src(n)[:30]}")
     _cache_keys(prog, rep, pm)
 
     rep.expect_min("R20.2", 6)
